@@ -703,6 +703,10 @@ impl Model {
                 self.after_request(*layer, &mut e);
                 e
             }
+            Op::WriteMetadata { meta: MetaVal::Unwritable, .. } => {
+                // serialisation fails before anything is written: an error, nothing changes
+                Expectation::simple(ExpResult::ErrOther)
+            }
             Op::WriteMetadata { layer, meta, .. } => {
                 let (types, _) = self.read_toml(*layer).unwrap_or((None, None));
                 self.write_toml(*layer, types, meta.table());
